@@ -932,6 +932,16 @@ class OpsMixin:
                     return r if sym == "==" else not r
                 e = z3.And(*[z3.BoolVal(p) if isinstance(p, bool) else p for p in parts])
                 return self.wrap_bool(e if sym == "==" else z3.Not(e))
+            if isinstance(a, SDict) and isinstance(b, SDict) and not getattr(a, "sym_items", None) and not getattr(b, "sym_items", None):
+                # dicts with concrete keys: equal iff same key set and equal values
+                if set(a.items) != set(b.items):
+                    return sym == "!="
+                parts = [self.truth(self.cmp_vals("==", a.items[k], b.items[k])) for k in a.items]
+                if all(isinstance(p, bool) for p in parts):
+                    r = all(parts)
+                    return r if sym == "==" else not r
+                e = z3.And(*[z3.BoolVal(p) if isinstance(p, bool) else p for p in parts])
+                return self.wrap_bool(e if sym == "==" else z3.Not(e))
             if a is None or b is None:
                 r = a is None and b is None
                 return r if sym == "==" else not r
